@@ -79,6 +79,8 @@ def physics(quick):
                   kw=dict(applied_vector_potential=tdgl.Parameter(c11_ramp, time_dependent=True), terminal_currents={"source": 3.0, "drain": -3.0})))
     # an averaging window longer than some of the save intervals (and than the per-step record buffer they imply)
     c.append(dict(name="adaptive_window4", dev="bar", N=11, opts=dict(dt_init=1e-4, dt_max=1.0, adaptive=True, adaptive_window=4), kw=dict(applied_vector_potential=0.7, terminal_currents={"source": 4.0, "drain": -4.0})))
+    # no current terminals (the potential is fixed by Neumann data alone) but voltage probes, ramped field: mu != 0
+    c.append(dict(name="no_terminals_ramped_field", dev="ring", N=7, opts=dict(dt_init=5e-3, adaptive=False), kw=dict(applied_vector_potential=tdgl.Parameter(c11_ramp, time_dependent=True))))
     if not quick:
         c.append(dict(name="screening", dev="ring", opts=dict(dt_init=1e-2, adaptive=False, include_screening=True, screening_tolerance=1e-2), kw=dict(applied_vector_potential=0.3)))
     return c
